@@ -25,7 +25,7 @@
 #include <unistd.h>
 
 #define OUTCAP ((size_t)48 << 20)
-#define MEMLIMIT ((uint64_t)768 << 20)
+#define MEMLIMIT ((uint64_t)160 << 20)
 static uint8_t *g_out;            // one big lazily touched output buffer, reused for every case
 static uint8_t *g_base; static size_t g_base_len;
 static uint8_t *g_orig; static size_t g_orig_len;
